@@ -9,7 +9,7 @@ echo "[setup] building harness (offline, dev profile)"
 (cd harness && cargo build --offline --quiet)
 echo "[setup] parsing specifications with SANY"
 fail=0
-for f in spec/*.tla spec/mc/*.tla spec/trace/*.tla; do
+for f in spec/*.tla spec/mc/*.tla spec/trace/*.tla spec/explore/*.tla; do
   [ -f "$f" ] || continue
   d=$(dirname "$f")
   if ! (cd "$d" && java -DTLA-Library="$PWD/../:$PWD/../../spec:$PWD" -cp /opt/veriftools/tla/tla2tools.jar:/opt/veriftools/tla/CommunityModules-deps.jar tla2sany.SANY "$(basename "$f")" >/tmp/sany.$$ 2>&1); then
